@@ -27,6 +27,7 @@
 //	body <height>                   body served at a main-chain height -> <wid>|none|?
 //	stored <hdr>                    body served under a block hash   -> <wid>|none|?
 //	td <hdr> | isorphan <hdr> | txidx <tag>
+//	produce <wid>                   the node executes the body as its own block on its tip -> kept=<inst,..>|n/a
 //	scan                            C28 predicate over the best chain -> ok
 //	end                             predicates, close node           -> ok
 package c27run
@@ -45,6 +46,7 @@ import (
 	"github.com/33cn/chain33/common/crypto"
 	"github.com/33cn/chain33/common/merkle"
 	"github.com/33cn/chain33/types"
+	"github.com/33cn/chain33/util"
 
 	"verifharness/internal/chainkit"
 	"verifharness/internal/gen"
@@ -598,6 +600,16 @@ func (e *env) run(line string) string {
 			}
 		}
 		return "none"
+	case "produce":
+		if len(w) != 2 {
+			return "bad-op"
+		}
+		wid, ok := atoi(w[1])
+		v := e.vars[wid]
+		if !ok || v == nil {
+			return "bad-op"
+		}
+		return e.produce(v)
 	case "scan":
 		if len(w) != 1 {
 			return "bad-op"
@@ -615,6 +627,48 @@ func (e *env) run(line string) string {
 		return "ok"
 	}
 	return "bad-op"
+}
+
+// produce: the node executes the body as its OWN block on its tip (util.ExecBlock with
+// errReturn=false, as the consensus module does): duplicates (in the block, on the chain, in the
+// TxHeight window) and transactions answering ExecErr are dropped.  Answers the surviving instances.
+func (e *env) produce(v *variant) string {
+	tip, _ := e.node.Tip()
+	if !bytes.Equal(v.blk.ParentHash, tip) {
+		return "n/a"
+	}
+	last := e.node.Chain.GetStore().LastHeader()
+	cp := types.Clone(v.blk).(*types.Block)
+	cp.Signature = nil
+	d, _, err := util.ExecBlock(e.node.Mock.GetClient(), last.StateHash, cp, false, true, false)
+	if err != nil {
+		return "err:" + strings.ReplaceAll(err.Error(), " ", "_")
+	}
+	var kept []string
+	used := map[int]bool{}
+	for _, tx := range d.Block.Txs {
+		found := -1
+		for pos := len(v.txs) - 1; pos >= 0; pos-- { // DelDupTx keeps the last occurrence
+			if !used[pos] && bytes.Equal(e.insts[v.txs[pos]].tx.FullHash(), tx.FullHash()) {
+				found = pos
+				break
+			}
+		}
+		if found < 0 {
+			kept = append(kept, "?")
+			continue
+		}
+		used[found] = true
+		kept = append(kept, fmt.Sprint(v.txs[found]))
+	}
+	if Prop == "C28" {
+		e.scanProduced(d.Block)
+	}
+	out.Stat("blocks_produced", 1)
+	if len(kept) == 0 {
+		return "kept=-"
+	}
+	return "kept=" + strings.Join(kept, ",")
 }
 
 // settle: a synchronous (high-priority, FIFO) mempool query — every EventAddBlock sent during the
